@@ -23,18 +23,18 @@ Print Assumptions scan_consumes_prefix.
    well formed for its kind and is followed by a blank or punctuation that cannot be glued to it
    ([pok]), the parser's view of the rendered text is exactly the printed tokens, then end of
    input. *)
-Theorem lex_print_tokens : forall ud, ud_ok ud -> forall ps, pok ps [] ->
+Theorem lex_print_tokens : forall ud, ud_ok ud -> forall ps, pok (peek_digits ud) ps [] ->
   tokens_of_text ud (render ps) = Some (toks_of ps ++ [eof_tok]).
 Proof. exact ProofsLexPrint.lex_print_tokens. Qed.
 Print Assumptions lex_print_tokens.
 
 (* the writer's pieces of an expressible document satisfy that condition *)
-Theorem write_lexable : forall fmt prs hex, oracle_ok fmt prs -> forall f, wf_file f -> pok (w_file fmt hex f) [].
+Theorem write_lexable : forall up, ud_ok up -> forall fmt prs hex, oracle_ok fmt prs -> forall f, wf_file up f -> pok up (w_file fmt hex f) [].
 Proof. exact ProofsPok.pok_file. Qed.
 Print Assumptions write_lexable.
 
 (* token level: the section loop over the printed tokens returns the document's entries *)
-Theorem parse_write_tokens : forall fmt prs hex, oracle_ok fmt prs -> forall f, wf_file f ->
+Theorem parse_write_tokens : forall up fmt prs hex, oracle_ok fmt prs -> forall f, wf_file up f ->
   exists items,
     parse_loop prs hex (S (length (toks_of (w_file fmt hex f) ++ [eof_tok]))) fl0 (toks_of (w_file fmt hex f) ++ [eof_tok]) = ROk items /\
     assemble items = norm_file fmt hex f.
@@ -44,13 +44,13 @@ Print Assumptions parse_write_tokens.
 (* parse_write (all 19 sections, both number modes): parsing the written text of an expressible
    document succeeds and returns the document with header defaults filled in and numeric
    attribute literals in read-back form *)
-Theorem parse_write : forall ud fmt prs hex, ud_ok ud -> oracle_ok fmt prs -> forall f, wf_file f ->
+Theorem parse_write : forall ud fmt prs hex, ud_ok ud -> oracle_ok fmt prs -> forall f, wf_file (peek_digits ud) f ->
   parse ud prs hex (write fmt hex f) = OOk (norm_file fmt hex f).
 Proof. exact ProofsRoundTrip.parse_write. Qed.
 Print Assumptions parse_write.
 
 (* ... which is a document equivalent to the original (equal after [norm_file], idempotent) *)
-Theorem parse_write_equiv : forall ud fmt prs hex, ud_ok ud -> oracle_ok fmt prs -> forall f, wf_file f ->
+Theorem parse_write_equiv : forall ud fmt prs hex, ud_ok ud -> oracle_ok fmt prs -> forall f, wf_file (peek_digits ud) f ->
   exists f', parse ud prs hex (write fmt hex f) = OOk f' /\ equiv fmt hex f' f.
 Proof. exact ProofsRoundTrip.parse_write_equiv. Qed.
 Print Assumptions parse_write_equiv.
@@ -67,7 +67,7 @@ Definition parse_write_parse_statement : Prop :=
    what is missing is parse_output_expressible (parse t = OOk f -> wf_file f, with identifier
    well-formedness generalised to non-ASCII digits) — see props/C08/NOTES.md *)
 Theorem parse_write_parse_partial : forall ud fmt prs hex, ud_ok ud -> oracle_ok fmt prs ->
-  forall t f, parse ud prs hex t = OOk f -> wf_file f ->
+  forall t f, parse ud prs hex t = OOk f -> wf_file (peek_digits ud) f ->
   exists f', parse ud prs hex (write fmt hex f) = OOk f' /\ equiv fmt hex f' f.
 Proof. intros ud fmt prs hex Hud Hor t f _ Hwf. exact (ProofsRoundTrip.parse_write_equiv ud fmt prs hex Hud Hor f Hwf). Qed.
 Print Assumptions parse_write_parse_partial.
@@ -79,7 +79,7 @@ Theorem oracle_laws_satisfiable : oracle_ok toy_fmt toy_prs.
 Proof. exact Examples.toy_oracle_ok. Qed.
 Print Assumptions oracle_laws_satisfiable.
 
-Theorem expressible_satisfiable : wf_file sample_file.
+Theorem expressible_satisfiable : wf_file no_ud sample_file.
 Proof. exact Examples.sample_file_wf. Qed.
 Print Assumptions expressible_satisfiable.
 
